@@ -211,6 +211,7 @@ func drawColumns(w *simrt.Tape, name string, nSets int) (cols [][]float64, maxDi
 	// models with a variable-length state vector: in 40% of the draws the parameter sets are left
 	// in different width classes
 	mixed := (name == "GR4J" || name == "Lag") && nSets > 1 && w.Bool(40)
+	corner := w.Bool(25) // a quarter of the cases draw half of their parameters from the ends of the ranges
 	if domains.IsDimensioned(name) {
 		maxDim = 1 + w.Choose(4) + 1 // usually 2..5 table rows
 		if w.Choose(5) == 4 {
@@ -222,7 +223,12 @@ func drawColumns(w *simrt.Tape, name string, nSets int) (cols [][]float64, maxDi
 		if j == 0 && maxDim > 0 {
 			force = maxDim // at least one cell uses the full table, so FindDimensions == maxDim
 		}
-		c := domains.GenParams(w, name, maxDim, force)
+		var c []float64
+		if corner {
+			c = domains.GenParams(cornerTape{w}, name, maxDim, force)
+		} else {
+			c = domains.GenParams(w, name, maxDim, force)
+		}
 		if j > 0 && !mixed {
 			domains.ForceStateWidthClass(name, c, domains.StateWidthClass(name, cols[0]))
 		}
@@ -311,4 +317,21 @@ func pickModel(w *simrt.Tape) string {
 		return specialModels[w.Choose(len(specialModels))]
 	}
 	return names[w.Choose(len(names))]
+}
+
+// cornerTape wraps a tape so that range draws (the 4096-step grid of domains.Float) land on one
+// of the two ends of the range with probability 1/2: thresholds, clamps and "exactly zero"
+// branches of the kernels only trigger there.
+type cornerTape struct{ w *simrt.Tape }
+
+func (c cornerTape) Choose(n int) int {
+	if n == 4096 {
+		switch c.w.Choose(4) {
+		case 2:
+			return 0
+		case 3:
+			return 4095
+		}
+	}
+	return c.w.Choose(n)
 }
